@@ -6,6 +6,7 @@ package main
 import (
 	"fmt"
 	"os"
+	"regexp"
 	"go/ast"
 	"go/constant"
 	"go/token"
@@ -555,6 +556,9 @@ func (vc *VC) enterLoop(fr *Frame, li *loopInfo, phiIn map[*ssa.Phi]*Val) {
 		fr.discover = map[*ssa.BasicBlock]map[string]bool{}
 	}
 	fr.discover[li.header] = map[string]bool{}
+	saveWrites := vc.discWrites
+	vc.discWrites = map[string][]string{}
+	startCounter := vc.nfresh
 	if fr.discHeader == nil {
 		fr.discHeader = map[*ssa.BasicBlock]*State{}
 	}
@@ -566,6 +570,14 @@ func (vc *VC) enterLoop(fr *Frame, li *loopInfo, phiIn map[*ssa.Phi]*Val) {
 	fr.curBlock = saveBlock
 	modified := fr.discover[li.header]
 	delete(fr.discover, li.header)
+	writes := vc.discWrites
+	vc.discWrites = saveWrites
+	if saveWrites != nil {
+		// an enclosing discovery pass sees these writes too
+		for k, v := range writes {
+			saveWrites[k] = append(saveWrites[k], v...)
+		}
+	}
 	vc.discovery--
 	vc.rollback(cp)
 	fr.vals, fr.ends, fr.defers, fr.rets = saveVals, saveEnds, saveDefers, saveRets
@@ -574,6 +586,7 @@ func (vc *VC) enterLoop(fr *Frame, li *loopInfo, phiIn map[*ssa.Phi]*Val) {
 	hreach := vc.fresh(fmt.Sprintf("reach_%s_loop%d", sanitize(fr.fn.Name()), li.ordinal), "Bool")
 	vc.emit("(assert (=> %s %s))", hreach, reachIn)
 	vc.reach = hreach
+	partial := map[string]bool{}
 	keys := make([]string, 0, len(modified))
 	for k, isMod := range modified {
 		if isMod {
@@ -595,6 +608,17 @@ func (vc *VC) enterLoop(fr *Frame, li *loopInfo, phiIn map[*ssa.Phi]*Val) {
 			vc.emit("(assert (>= %s %s))", vc.st.m[k], oldA)
 			continue
 		}
+		// When every write of the body to this storage goes to an index that
+		// does not depend on the iteration, only those entries are forgotten.
+		if idxs := invariantIndices(writes[k], startCounter); idxs != nil && strings.HasPrefix(srt, "(Array ") {
+			elem := arrayElemSort(srt)
+			for _, ix := range idxs {
+				f := vc.fresh("havoc_"+k, elem)
+				vc.set(k, srt, fmt.Sprintf("(store %s %s %s)", vc.get(k, srt), ix, f))
+			}
+			partial[k] = true
+			continue
+		}
 		vc.havocStorage(k, srt)
 	}
 	if modified["__epoch"] {
@@ -605,7 +629,7 @@ func (vc *VC) enterLoop(fr *Frame, li *loopInfo, phiIn map[*ssa.Phi]*Val) {
 	// there still hold their entry values.
 	if vc.checkFrame && !vc.modAll && !modified["__epoch"] && vc.st.epoch == "" {
 		for _, k := range keys {
-			if !heapLike(k) || strings.HasPrefix(k, "G.") || strings.HasPrefix(k, "GV.") {
+			if !heapLike(k) || strings.HasPrefix(k, "G.") || strings.HasPrefix(k, "GV.") || partial[k] {
 				continue
 			}
 			srt := vc.p.storageSort[k]
@@ -1185,7 +1209,11 @@ func (vc *VC) unop(fr *Frame, in *ssa.UnOp, pos token.Pos) *Val {
 		v.Ty = in.Type()
 		v.PRoot, v.PFields = x.PRoot, x.PFields
 		// give the loaded value a name to keep terms small, and constrain it
-		nv := &Val{T: vc.define("ld_"+in.Name(), vc.sortOf(in.Type()), v.T), Ty: in.Type(), PRoot: x.PRoot, PFields: x.PFields}
+		nv := &Val{T: v.T, Ty: in.Type(), PRoot: x.PRoot, PFields: x.PFields}
+		if !(l.Kind == RField && vc.immutableHeaps()[l.Heap]) {
+			// (loads of immutable fields keep their raw term: it does not depend on the program point)
+			nv.T = vc.define("ld_"+in.Name(), vc.sortOf(in.Type()), v.T)
+		}
 		vc.valueFacts(nv.T, nv.Ty)
 		if g, ok := in.X.(*ssa.Global); ok && g.Pkg != nil && vc.p.db.NonNilGlobalPkgs[g.Pkg.Pkg.Path()] {
 			switch vc.sortOf(in.Type()) {
@@ -1723,4 +1751,36 @@ func (vc *VC) heapClosureAxiom(l *Loc) {
 	vc.globalFact = true
 	vc.emit("(assert (forall %s (! %s :pattern (%s))))", bind, body, pat)
 	vc.globalFact = save
+}
+
+var freshNumRe = regexp.MustCompile(`!(\d+)`)
+
+// invariantIndices returns the distinct index terms of the writes when all of
+// them are non-empty and mention only symbols introduced before the loop
+// (counter below start); nil otherwise.
+func invariantIndices(idxs []string, start int) []string {
+	if len(idxs) == 0 {
+		return nil
+	}
+	seen := map[string]bool{}
+	var out []string
+	for _, ix := range idxs {
+		if ix == "" {
+			return nil
+		}
+		for _, m := range freshNumRe.FindAllStringSubmatch(ix, -1) {
+			n, _ := strconv.Atoi(m[1])
+			if n > start {
+				return nil
+			}
+		}
+		if !seen[ix] {
+			seen[ix] = true
+			out = append(out, ix)
+		}
+	}
+	if len(out) > 4 {
+		return nil
+	}
+	return out
 }
